@@ -74,6 +74,8 @@ def run_crosshair(fn, line, env, timeout, path_timeout, unblock, scratch):
             verdict, msg = "confirmed", m["msg"]
     if verdict == "cex" and call is None:
         verdict = "inconclusive"  # an error without a reproducible call (internal error etc.)
+    if verdict == "confirmed" and stats.get("paths") is None:
+        verdict, msg = "inconclusive", "confirmed, but the process reported no statistics: paths reaching the assertion cannot be counted (vacuity not excluded)"
     return dict(verdict=verdict, msg=msg, call=call, stats=stats, wall=wall, rc=rc, err=err[-2000:] if verdict == "inconclusive" else "")
 
 
@@ -175,6 +177,8 @@ def check(a):
             harness_errors.append(f"{res['label']}: {fatal[0]}")
         if role == "main":
             if res["verdict"] == "confirmed":
+                if not res["stats"].get("reached"):
+                    harness_errors.append(f"{res['label']}: confirmed, but no path reached the deciding assertion (vacuous partition)")
                 continue
             if res["verdict"] == "cex":
                 rc, out = replay_call(pid, res["call"], {k: v for k, v in res["env"].items() if k.startswith("VF_KF") or k.startswith("VFH_")})
